@@ -54,7 +54,16 @@ func (e *eventStream) Receive(c *Context) {
 			level, msg, attr := logMsg.Log()
 			slog.Log(context.Background(), level, msg, attr...)
 		}
-		for _, sub := range e.subs {
+		for key, sub := range e.subs {
+			// A subscriber that cannot be reached any more (a local actor that
+			// has stopped, or a remote address on an engine without a remote) is
+			// dropped: forwarding to it would only produce a dead letter (or
+			// remote-missing) event, which in turn would be forwarded to it again,
+			// without end.
+			if !c.engine.canDeliver(sub) {
+				delete(e.subs, key)
+				continue
+			}
 			c.Forward(sub)
 		}
 	}
